@@ -183,6 +183,25 @@ _CANON = [
     ("overflow", ["sh = 40", "v = a << sh"]),
     ("conversion", ["n3 = 299 + a", "v = n3.to_byte()"]),
     ("conversion", ["bb = B9999999999", "v = bb.to_int()"]),
+    ("conversion", ["n4 = 199 + a", "v = n4.to_byte().to_ascii()"]),
+    ("conversion", ["ff = 1.0e30", "v = ff.to_int()"]),
+    ("zero-divisor", ["zb = B0", "v = B10 / zb"]),
+    ("zero-divisor", ["zb = B0", "v = B10 % zb"]),
+    ("zero-divisor", ["zy = 0b0", "v = 0b11 / zy"]),
+    ("zero-divisor", ["zy = 0b0", "v = 0b11 % zy"]),
+    ("zero-divisor", ["zf = 0.0", "v = 1.5 % zf"]),
+    ("overflow", ["big = 0 - 2147483647", "v = big - a - a"]),
+    ("overflow", ["big = 65536", "v = big * big * a"]),
+    ("overflow", ["big = 0 - 2147483647", "big = big - a", "v = -big"]),
+    ("overflow", ["big = 0 - 2147483647", "big = big - a", "v = big / (0 - a)"]),
+    ("overflow", ["bg = B9223372036854775807", "v = bg + a"]),
+    ("overflow", ["sh = 40", "v = a >> sh"]),
+    ("overflow", ["sh = 0 - a", "v = a << sh"]),
+    ("overflow", ["sh = 70", "v = B1 << sh"]),
+    ("overflow", ["sh = 9", "v = 0b1 << sh"]),
+    ("overflow", ["sh = B4294967296", "v = a << sh"]),
+    ("overflow", ["sh = 0b11111111", "v = B1 << sh"]),
+    ("overflow", ["ee = 40", "v = (a + a).pow(ee)"]),
 ]
 _LEARNT = None
 
@@ -198,6 +217,13 @@ def innermost_message(res):
         if mm:
             last = mm.group(2).strip()
     return last
+
+
+def _literal_core(msg):
+    """The longest literal stretch of a message (between its numbers / quoted parts), if long enough to be characteristic."""
+    parts = re.split(r"([\w./-]+\.ms\b|-?\d+(?:\.\d+)?|`[^`]*`|'[^']*'|\"[^\"]*\")", msg)
+    best = max((x.strip() for i, x in enumerate(parts) if i % 2 == 0), key=len, default="")
+    return re.escape(best) if len(best) >= 12 else None
 
 
 def _generalise(msg):
@@ -219,17 +245,17 @@ def _learn_classes():
         got.append((cls, msg, r.err))
     learnt = []
     for cls, msg, _ in got:
-        rx = _generalise(msg) if msg else None
-        if not rx:
-            continue
-        try:
-            c = re.compile(rx)
-        except re.error:
-            continue
-        if any(c2 != cls and c.search(e2) for c2, _, e2 in got):
-            continue                      # too generic: another class shows it as well
-        if not any(c.pattern == c0.pattern for _, c0 in learnt):
-            learnt.append((cls, c))
+        for rx in ((_generalise(msg), _literal_core(msg)) if msg else ()):
+            if not rx:
+                continue
+            try:
+                c = re.compile(rx)
+            except re.error:
+                continue
+            if any(c2 != cls and c.search(e2) for c2, _, e2 in got):
+                continue                      # too generic: another class shows it as well
+            if not any(c.pattern == c0.pattern for _, c0 in learnt):
+                learnt.append((cls, c))
     _LEARNT = learnt
 
 
